@@ -20,7 +20,7 @@ LEVEL = 'fault_enumeration'
 RULE = ('negative half: the well-formed documents of the annotated generator (see C03) - stderr must be empty and the mark absent; '
         'positive half: Hypothesis draws (prefix document, fault kind, fault text, rest document) with fault kinds {open inline maths $ \\(, open displayed maths \\[ $$ equation/align, '
         'mandatory or optional argument of a declared macro open at end of text, \\verb without closing delimiter, verbatim without end, LT-SKIP-BEGIN without END, accent on a non-letter, '
-        '\\LTinput of a missing file}, also with the fault within the last 14 characters of the text; oracle: exact line/column in the diagnostic, complete mark, mark mapped to the fault offset, '
+        '\\LTinput of a missing or undecodable file}; optionally an \\LTinput of an empty / comment-only file in front, also with the fault within the last 14 characters of the text; oracle: exact line/column in the diagnostic, complete mark, mark mapped to the fault offset, '
         'all later words present in order with exact positions, mark iff diagnostic. '
         'non-trivial = positive case whose fault is not at offset 0 and that has at least one word behind the faulty construct; distinct by source text')
 ASSUMPTIONS = docprop.ASSUMPTIONS + [
@@ -48,10 +48,10 @@ fault = st.one_of(
     st.tuples(st.just('verbatim'), st.sampled_from(['', ' ', '\n'])),
     st.tuples(st.just('skip'),),
     st.tuples(st.just('accent'), st.sampled_from(["\\'1", '\\"{2x}', '\\v{.}', '\\c 3', "\\`ж", '\\^{9}', '\\~?', '\\H{(}'])),
-    st.tuples(st.just('ltinput'),),
+    st.tuples(st.just('ltinput'), st.sampled_from(['missing', 'missing', 'undecodable'])),
 )
 small_flow = st.recursive(docgen.leaf_flow, docgen.mkflow, max_leaves=6)
-case_s = st.tuples(st.one_of(st.just([]), small_flow), docgen.sep_any, fault,
+case_s = st.tuples(st.one_of(st.just([]), small_flow, st.just('LTINPUT-EMPTY'), st.just('LTINPUT-COMMENT')), docgen.sep_any, fault,
                    st.one_of(st.just([]), st.just([]), docgen.leaf_flow, small_flow),
                    st.sampled_from(['', '', ' ', '\n', '\n\n']))
 
@@ -72,7 +72,13 @@ def build(case, flags):
         fl['no_skip'] = True
     m = docgen.Model(fl)
     m.emit(docgen.PREAMBLE)
-    if prefix:
+    if prefix in ('LTINPUT-EMPTY', 'LTINPUT-COMMENT'):
+        # a readable file without any definition is read first (two-step situation)
+        m.emit('\\LTinput{zz-%s.tex}\n' % prefix[8:].lower())
+        w = m.word()
+        m.main.append(('w', w, m.n, 'word'))
+        m.emit(w + '\n')
+    elif prefix:
         docgen.render_flow(m, prefix, first_sep=False)
         docgen.emit_sep(m, sep)
     info = {'kind': kind}
@@ -109,7 +115,10 @@ def build(case, flags):
         m.emit(' ')
     elif kind == 'ltinput':
         info['off'] = m.emit('\\LTinput{')
-        m.emit('zz-no-such-file-' + m.word() + '.tex}')
+        if len(flt) > 1 and flt[1] == 'undecodable':
+            m.emit('zz-latin1.tex}')
+        else:
+            m.emit('zz-no-such-file-' + m.word() + '.tex}')
     info['span_end'] = m.n
     mark0 = len(m.main)
     done0 = len(m.done)
